@@ -96,6 +96,22 @@ def flips(base: str, positions=None, alphabet=ALPHABET):
                 yield {"kind": "flip", "at": i, "to": sym}, base[:i] + sym + base[i + 1:]
 
 
+INSERT_ALPHABET = ['"', "'", "(", "[", "{", ")", "$", "!", "?", "@", "\\", ".", "_", "0", "e", "r", "p", "u", "\n", " "]
+
+
+def deletions(base: str, positions=None):
+    """A lost character: the stored text with one position missing."""
+    for i in positions if positions is not None else range(len(base)):
+        yield {"kind": "delete", "at": i}, base[:i] + base[i + 1:]
+
+
+def insertions(base: str, positions=None, alphabet=INSERT_ALPHABET):
+    """A spurious character: one symbol inserted before position i (i == len(base) appends)."""
+    for i in positions if positions is not None else range(len(base) + 1):
+        for sym in alphabet:
+            yield {"kind": "insert", "at": i, "sym": sym}, base[:i] + sym + base[i:]
+
+
 def hot_positions(base: str) -> list[int]:
     """Positions in or next to in-flight tokenizer state: quotes, brackets, backslashes, sigils."""
     hot = set()
@@ -112,7 +128,16 @@ def seeded_faults(base: str, others: list[str], rng, n: int):
         if not base:
             return
         k = rng.choice(["flip", "flip", "burst", "drop_line", "dup_line", "swap_lines", "torn", "double", "triple",
-                        "trunc+flip"])
+                        "trunc+flip", "insert", "insert", "delete"])
+        if k == "insert":
+            i = rng.choice(hot) if rng.random() < 0.6 else rng.randrange(len(base) + 1)
+            sym = rng.choice(INSERT_ALPHABET + ALPHABET)
+            yield {"kind": "insert", "at": i, "sym": sym}, base[:i] + sym + base[i:]
+            continue
+        if k == "delete":
+            i = rng.choice(hot) if rng.random() < 0.6 else rng.randrange(len(base))
+            yield {"kind": "delete", "at": i}, base[:i] + base[i + 1:]
+            continue
         if k == "flip":
             i = rng.choice(hot) if rng.random() < 0.7 else rng.randrange(len(base))
             sym = rng.choice(ALPHABET)
